@@ -594,6 +594,12 @@ fn main() {
                 (format!("≍ {mp} ⍜(⇌)∘ {mp}"), Some("[]:1")),
                 (format!("≍ {mp} ⍜(⊏[0 2])∘ {mp}"), Some("[]:1")),
                 (format!("≍ {mp} ⍜(↻1)∘ {mp}"), Some("[]:1")),
+                // round 6: fcc33ba under of insert with two constants, c5eaaf2 under of on with reverse / transpose
+                (format!("≍ {mp} ⍜(insert 1 10)∘ {mp}"), Some("[]:1")),
+                (format!("≍ map [1 2 3] [4 6 7] ⍜(insert 1 10)(+1) {mp}"), Some("[]:1")),
+                ("⍜(⟜⇌)(⊙∘) [1 2 3]".into(), Some("[3]:[1 2 3] | [3]:[1 2 3]")),
+                ("⍜(⟜⍉)(⊙∘) [1_2 3_4]".into(), None),
+                ("⍜(⟜⇌)(∩(+1)) [1 2 3]".into(), Some("[3]:[2 3 4] | [3]:[2 3 4]")),
             ];
             for (src, want) in progs {
                 let src = src.as_str();
